@@ -438,6 +438,9 @@ func c17History(prog []int, fam int) (sim.History, []string) {
 			{Opts: nop, Txs: []sim.TxSpec{big(call("U1", P, "", "2")), tr("W", "fresh-untouched", "1")}},
 			blk(big(call("U1", P, "", "0")), with(big(call("U0", P, "", "0")), func(s *sim.TxSpec) { s.Gas = 30000 }, "gas 30000")),
 			blk(unstk("V2", "V2", "V2", 0), big(tr("U1", P, "1"))),
+			blk(big(call("fresh-untouched", P, "", "0"))),
+			blk(tr("fresh-untouched", "W", "1"), tr("fresh-untouched", "W", "2")),
+			blk(big(call("U1", P, "", "0")), with(tr("fresh-untouched", "W", "2"), func(s *sim.TxSpec) { s.NonceOff = -1 }, "replay of the previous nonce")),
 			blk(big(deploy("U1", "00", "0")), tr("W", "U1", "55"), big(deploy("U1", "00", "0")), tr("U0", P, "0"), tr("W", P, "9"), big(call("U1", P, "", "0"))),
 		}
 	}
@@ -454,9 +457,54 @@ func createAddr(from []byte, nonce uint64) []byte {
 func (c *c17) RunDesc(desc json.RawMessage) engine.Result {
 	var cs c17Case
 	_ = json.Unmarshal(desc, &cs)
-	res := engine.Result{}
-	h, names := c17History(cs.Prog, cs.Family)
-	hook := &evmHook{w: evmref.New(), gen: h.Gen, touched: map[string]bool{}, counters: map[string]int{}, destroyed: map[string]bool{}, hadCode: map[string]bool{}}
+	res, findings, hook, names, mr := c17Run(cs)
+	if mr != nil && mr.Res != nil {
+		defer mr.Res.Cleanup()
+	}
+	if res.Err != "" {
+		return res
+	}
+	for _, f := range findings {
+		// in these histories every balance and nonce is part of "the native ledger equals the EVM's results"
+		own := f.Prop == "C17" || f.Prop == "BAL" || (f.Prop == "C04" && f.Kind == "nonce-mismatch")
+		if !own {
+			res.Count("findings_owned_by_other_properties:"+f.Prop, 1)
+			continue
+		}
+		site := f.Site
+		if f.Prop != "C17" {
+			site = "native-ledger:" + f.Kind
+			// an account the reference world destroyed (SELFDESTRUCT): classified separately
+			for a := range hook.destroyed {
+				if strings.Contains(f.Detail, a) {
+					site = "self-destructed-contract-keeps-native-" + strings.TrimSuffix(f.Kind, "-mismatch")
+				}
+			}
+		}
+		v := engine.Violation{Property: "C17", Kind: f.Kind, Site: site, Detail: fmt.Sprintf("%s\n program [%s] family %d", f.Detail, strings.Join(names, " ; "), cs.Family), Case: desc}
+		dup := false
+		for _, o := range res.Violations {
+			if o.Fingerprint() == v.Fingerprint() {
+				dup = true
+			}
+		}
+		if !dup {
+			res.Violations = append(res.Violations, v)
+		}
+	}
+	res.Nontrivial = hook.counters["evm_ok_both"] > 1
+	if len(cs.Prog) == 2 && cs.Prog[0] == 9 {
+		res.Sample = sim.MustJSON(map[string]interface{}{"program": names, "family": cs.Family, "evm_ok": hook.counters["evm_ok_both"], "evm_failed": hook.counters["evm_failed_both"]})
+	}
+	return res
+}
+
+// c17Run executes one (program, family) case in lock step with the reference EVM world and returns ALL findings
+// (also used by C04 for its EVM-interplay cases). The caller cleans up mr.Res.
+func c17Run(cs c17Case) (res engine.Result, findings []refmodel.Finding, hook *evmHook, names []string, mr *modelRun) {
+	var h sim.History
+	h, names = c17History(cs.Prog, cs.Family)
+	hook = &evmHook{w: evmref.New(), gen: h.Gen, touched: map[string]bool{}, counters: map[string]int{}, destroyed: map[string]bool{}, hadCode: map[string]bool{}}
 	var extra []refmodel.Finding
 	mo := &modelOpts{EVM: hook, OnStart: func(ch *sim.Chain, m *refmodel.Model) { hook.chain = ch; hook.model = m; ch.InstallRPCEnv() }}
 	mo.Gap = func(ch *sim.Chain, hh int64, kind string, idx int) {
@@ -504,22 +552,18 @@ func (c *c17) RunDesc(desc json.RawMessage) engine.Result {
 			extra = append(extra, refmodel.Finding{Prop: "C17", Kind: "vm_call-return-differs", Site: "vm_call", H: hh, Detail: fmt.Sprintf("height %d: vm_call returned %X, reference %X", hh, ret, r.Ret)})
 		}
 	}
-	mr := runWithModel(h, mo)
-	defer mr.Res.Cleanup()
+	mr = runWithModel(h, mo)
 	if mr.Res.Err != "" && (mr.Res.Chain == nil || !mr.Res.Chain.Dead) {
 		res.Err = mr.Res.Err
-		return res
+		return
 	}
 	res.Transitions = len(mr.Res.Chain.Log)
 	for _, st := range mr.Res.States {
 		res.States = append(res.States, st.Hash())
 	}
-	for k, v := range hook.counters {
-		res.Count(k, v)
-	}
 	res.Count("tx_ok", mr.TxOK)
 	res.Count("tx_failed", mr.TxFail)
-	findings := append(mr.Findings, extra...)
+	findings = append(mr.Findings, extra...)
 	// code + storage of every contract of the reference world at the final height
 	if n := len(mr.Res.States); n > 0 && !mr.Res.Chain.Dead {
 		st := mr.Res.States[n-1]
@@ -559,40 +603,11 @@ func (c *c17) RunDesc(desc json.RawMessage) engine.Result {
 			}
 		}
 	}
-	for _, f := range findings {
-		// in these histories every balance and nonce is part of "the native ledger equals the EVM's results"
-		own := f.Prop == "C17" || f.Prop == "BAL" || (f.Prop == "C04" && f.Kind == "nonce-mismatch")
-		if !own {
-			res.Count("findings_owned_by_other_properties:"+f.Prop, 1)
-			continue
-		}
-		site := f.Site
-		if f.Prop != "C17" {
-			site = "native-ledger:" + f.Kind
-			// an account the reference world destroyed (SELFDESTRUCT): classified separately
-			for a := range hook.destroyed {
-				if strings.Contains(f.Detail, a) {
-					site = "self-destructed-contract-keeps-native-" + strings.TrimSuffix(f.Kind, "-mismatch")
-				}
-			}
-		}
-		v := engine.Violation{Property: "C17", Kind: f.Kind, Site: site, Detail: fmt.Sprintf("%s\n program [%s] family %d", f.Detail, strings.Join(names, " ; "), cs.Family), Case: desc}
-		dup := false
-		for _, o := range res.Violations {
-			if o.Fingerprint() == v.Fingerprint() {
-				dup = true
-			}
-		}
-		if !dup {
-			res.Violations = append(res.Violations, v)
-		}
+	for k, v := range hook.counters {
+		res.Count(k, v)
 	}
-	res.Nontrivial = hook.counters["evm_ok_both"] > 1
 	res.Outcome = shortHash(strings.Join(mr.Res.Chain.ConsensusLog(), "\n"))
-	if len(cs.Prog) == 2 && cs.Prog[0] == 9 {
-		res.Sample = sim.MustJSON(map[string]interface{}{"program": names, "family": cs.Family, "evm_ok": hook.counters["evm_ok_both"], "evm_failed": hook.counters["evm_failed_both"]})
-	}
-	return res
+	return
 }
 
 func sortedKV(m map[string]string) []string {
